@@ -156,6 +156,58 @@ example : checkWalk (fun t => if t = 1 then [0] else []) (fun t => t == 1) 2 2 [
 /-! ### bridge: the classifier of the code as it is now -/
 open Jug.Generated.Status
 
+/-! ### the one-line summary (`--short`) -/
+section Short
+variable (deps : Task → List Task)
+
+/-- the five totals of a task list -/
+def total (res : Task → Bool) (lock : Task → LockSt) (ts : List Task) (st : Status) : Nat :=
+  ts.countP (fun t => classify deps res lock t = st)
+
+/-- **"All tasks complete" is printed exactly when every task is complete**, and then with the number of tasks; in every other
+    case the line carries the totals themselves (waiting and ready folded into "waiting to be run") -/
+theorem short_all_complete_iff (res : Task → Bool) (lock : Task → LockSt) (ts : List Task) :
+    (∃ n, shortSummary (total deps res lock ts .failed) (total deps res lock ts .waiting) (total deps res lock ts .ready)
+        (total deps res lock ts .finished) (total deps res lock ts .running) = .allComplete n) ↔ ∀ t ∈ ts, res t = true := by
+  have hsum := totals_add_up deps res lock ts
+  unfold total shortSummary
+  constructor
+  · rintro ⟨n, h⟩
+    split at h
+    · rename_i hz
+      obtain ⟨hw, ha, hf, hr⟩ := hz
+      intro t ht
+      have hfin : ts.countP (fun t => classify deps res lock t = .finished) = ts.length := by omega
+      have := (List.countP_eq_length.mp hfin) t ht
+      have hc := ((classify_spec deps res lock t).1).mp (by simpa using this)
+      exact hc
+    · split at h <;> cases h
+  · intro hall
+    have hfin : ∀ t ∈ ts, classify deps res lock t = .finished := fun t ht => ((classify_spec deps res lock t).1).mpr (hall t ht)
+    have hz : ∀ st, st ≠ Status.finished → ts.countP (fun t => classify deps res lock t = st) = 0 := by
+      intro st hst
+      rw [List.countP_eq_zero]
+      intro t ht
+      simp [hfin t ht, Ne.symm hst]
+    refine ⟨ts.countP (fun t => classify deps res lock t = .finished), ?_⟩
+    simp [hz .waiting (by decide), hz .running (by decide), hz .failed (by decide), hz .ready (by decide)]
+
+theorem short_all_complete_count (res : Task → Bool) (lock : Task → LockSt) (ts : List Task) (n : Nat)
+    (h : shortSummary (total deps res lock ts .failed) (total deps res lock ts .waiting) (total deps res lock ts .ready)
+        (total deps res lock ts .finished) (total deps res lock ts .running) = .allComplete n) : n = ts.length := by
+  have hsum := totals_add_up deps res lock ts
+  unfold total shortSummary at h
+  split at h
+  · rename_i hz
+    cases h
+    omega
+  · split at h <;> cases h
+
+example : shortSummary 1 0 0 6 0 = .pending 0 1 6 none ∧ shortSummary 0 0 0 6 0 = .allComplete 6 ∧ shortSummary 0 2 1 3 2 = .pending 3 0 3 (some 2) := by decide
+
+end Short
+
+
 def statusOf : String → Status
   | "unknown" => .unknown | "waiting" => .waiting | "ready" => .ready | "running" => .running | "failed" => .failed | _ => .finished
 def lockOf : String → LockSt
